@@ -59,6 +59,13 @@ type Gen struct {
 	// than the sizes at which sort implementations switch algorithm, every account bidding)
 	burst        int
 	burstAuction uint64
+	// burstBidder >= 0: every bid of the burst comes from this account; burstTiny: one-coin bids
+	// (so that more than 100 of them fit: the default page size of the SDK's listings)
+	burstBidder int
+	burstTiny   bool
+	// flood: number of auctions still to be created in a row (more than 100 auctions alive at once)
+	flood        int
+	floodPending bool
 	// maxAuctions: per-history limit (W.MaxAuctions, or 12 for the occasional crowded history)
 	maxAuctions int
 	W            Weights
@@ -240,6 +247,10 @@ func (g *Gen) Prologue(t *rapid.T) []Op {
 	if g.W.Hooks {
 		ops = append(ops, genHooksOp(t))
 	}
+	g.burstBidder = -1
+	if g.W.CreateFixed+g.W.CreateBatch > 0 && pct(t, 1, "auction-flood") {
+		g.floodPending = true
+	}
 	g.maxAuctions = g.W.MaxAuctions
 	if pct(t, 6, "many-auctions") {
 		g.maxAuctions = 12 // more auctions alive at once than the usual 3-5
@@ -324,6 +335,10 @@ func Instants(s *Snap, now time.Time) []time.Time {
 // ---- operation generators --------------------------------------------------------------------
 
 // Next draws the next operation of a history given the current observed state.
+// Busy reports whether the generator is in the middle of a burst or flood (those operations do not
+// count against the length drawn for the history).
+func (g *Gen) Busy() bool { return g.burst > 0 || g.flood > 0 }
+
 // maxWire is the largest amount a message can carry (math.Int is limited to 256 bits; one bit is
 // left for sums).
 var maxWire = new(big.Int).Sub(new(big.Int).Lsh(bigOne, 255), bigOne)
@@ -362,7 +377,7 @@ func (g *Gen) next(t *rapid.T, w *World, s *Snap) Op {
 		g.burst--
 		if a := s.Auction(g.burstAuction); a != nil && a.Status == types.AuctionStatusStarted {
 			// the crowd: further accounts are allow-listed as the burst goes on
-			if n := len(s.AllowedOf(a.ID)); n < 14 && pct(t, 40, "burst-new-bidder") {
+			if n := len(s.AllowedOf(a.ID)); n < 14 && g.burstBidder < 0 && pct(t, 40, "burst-new-bidder") {
 				idx := NumAccounts + uni(t, "burst-crowd", NumCrowd)
 				if s.Cap(a.ID, Addrs[idx].String()) == nil {
 					max := floorDiv(a.SellAmt, bi(int64(1+uni(t, "burst-cap-div", 6))))
@@ -376,10 +391,40 @@ func (g *Gen) next(t *rapid.T, w *World, s *Snap) Op {
 		}
 		g.burst = 0
 	}
+	if g.flood > 0 {
+		g.flood--
+		kind := OpCreateFixed
+		if pct(t, 50, "flood-batch") {
+			kind = OpCreateBatch
+		}
+		o := g.genCreate(t, w, s, kind)
+		if g.flood%2 == 0 && len(s.Auctions) > 0 { // every other step: an allow-list entry for the newest auction
+			last := s.Auctions[len(s.Auctions)-1]
+			return Op{Kind: OpAddAllowed, Auction: last.ID, Bidder: 3 + uni(t, "flood-bidder", 4), MaxBid: "1"}
+		}
+		return o
+	}
+	if g.floodPending && pct(t, 10, "flood-start") {
+		g.floodPending = false
+		g.flood = 2 * (101 + uni(t, "flood-len", 12))
+		g.maxAuctions = 140
+		g.label("history:auction-flood(>100 auctions, >100 allow-list entries)")
+	}
 	if open := auctionsWith(s, func(a *Auc) bool { return a.Status == types.AuctionStatusStarted }); len(open) > 0 && g.W.PlaceBid > 0 && pct(t, 1, "bid-burst") {
 		a := pick(t, "burst-auction", open)
 		g.burst, g.burstAuction = 13+uni(t, "burst-len", 18), a.ID
+		g.burstBidder, g.burstTiny = -1, false
 		g.label("history:bid-burst(13-30 bids on one auction)")
+		if pct(t, 20, "burst-huge") {
+			// more than 100 bids: the default page size of the SDK's paginated reads
+			g.burst = 101 + uni(t, "burst-len-huge", 25)
+			g.burstTiny = true
+			g.label("history:bid-burst(>100 bids on one auction)")
+			if allowed := s.AllowedOf(a.ID); len(allowed) > 0 && pct(t, 50, "burst-single-bidder") {
+				g.burstBidder = AddrIndex(pick(t, "burst-bidder", allowed).Bidder)
+				g.label("history:bid-burst(>100 bids of one bidder)")
+			}
+		}
 	}
 	type choice struct {
 		kind string
@@ -959,6 +1004,9 @@ func (g *Gen) genPlaceBidOn(t *rapid.T, w *World, s *Snap, a *Auc) Op {
 		o.Signer = pick(t, "bid-foreign-bidder", foreign)
 		cap = bcopy(a.SellAmt)
 		g.label("bid:listed-on-another-auction-only")
+	} else if g.burst > 0 && g.burstBidder >= 0 && s.Cap(a.ID, Addrs[g.burstBidder].String()) != nil {
+		o.Signer = g.burstBidder
+		cap = s.Cap(a.ID, Addrs[g.burstBidder].String())
 	} else if len(allowed) > 0 && pct(t, 93, "bid-allowed") {
 		ab := pick(t, "bid-bidder", allowed)
 		o.Signer = AddrIndex(ab.Bidder)
@@ -1075,6 +1123,9 @@ func (g *Gen) genPlaceBidOn(t *rapid.T, w *World, s *Snap, a *Auc) Op {
 		} else {
 			o.CoinDenom = a.SellDenom
 			o.CoinAmount = qty.String()
+		}
+		if g.burst > 0 && g.burstTiny { // one coin at a time, so that the whole burst fits
+			o.CoinDenom, o.CoinAmount = a.SellDenom, "1"
 		}
 	} else {
 		// price: min, one of the existing prices (ties), or a fresh one >= min
